@@ -551,6 +551,7 @@ class MailboxSet(MailboxSetInterface[MailboxData]):
             if exc.errno == errno.ENOTEMPTY:
                 raise MailboxHasChildren(name) from exc
             raise exc
+        self._cache.pop(name, None)
 
     async def rename_mailbox(self, before: str, after: str) -> None:
         if before == 'INBOX':
@@ -563,3 +564,4 @@ class MailboxSet(MailboxSetInterface[MailboxData]):
         elif tree.get(after) is not None:
             raise ValueError(after)
         self._layout.rename_folder(before, after, self.delimiter)
+        self._cache.clear()
